@@ -23,4 +23,5 @@ RedeliverFirst == OkRedeliver(L)
 AllOrNothing == OkAllOrNothing(L)
 LenBound     == OkLen(L)
 Drained      == OkDrained(L)
+OnlyAborts   == OkNoCrash(L)
 =============================================================================
